@@ -635,7 +635,7 @@ func (f *Frame) blockEntry(b *ssa.BasicBlock) *State {
 	for _, phi := range autoPhis {
 		if ev, ok := phiVals[phi]; ok && tr.safety {
 			c.addObl(&Obligation{Name: fmt.Sprintf("%s#loop%d.auto.init", tr.oblPrefix, li.ord), Kind: "inv.init",
-				Guard: st.guard, Goal: c.it.le(I64, c.it.iconst(-1), ev.t), Pos: "-1 <= rangeindex", Func: tr.oblPrefix})
+				Guard: st.guard, Goal: f.autoRangeInv(phi, ev.t), Pos: "-1 <= rangeindex && (rangeindex == -1 || rangeindex < len)", Func: tr.oblPrefix})
 		}
 	}
 	// 1. invariants hold on entry
@@ -683,7 +683,7 @@ func (f *Frame) blockEntry(b *ssa.BasicBlock) *State {
 		facts = append(facts, tr.typeFacts(hst, fv)...)
 	}
 	for _, phi := range autoPhis {
-		facts = append(facts, c.it.le(I64, c.it.iconst(-1), hs.phiFresh[phi].t))
+		facts = append(facts, f.autoRangeInv(phi, hs.phiFresh[phi].t))
 	}
 	hst.guard = and(append([]Sx{hst.guard}, facts...)...)
 	hs.st = hst.clone()
@@ -701,6 +701,36 @@ func (f *Frame) blockEntry(b *ssa.BasicBlock) *State {
 		}
 	}
 	return hst
+}
+
+// rangeBound: for a rangeindex phi t3 with header test (t3+1) < n, the SSA value n
+func rangeBound(phi *ssa.Phi) ssa.Value {
+	for _, in := range phi.Block().Instrs {
+		lt, ok := in.(*ssa.BinOp)
+		if !ok || lt.Op != token.LSS {
+			continue
+		}
+		add, ok := lt.X.(*ssa.BinOp)
+		if !ok || add.Op != token.ADD || add.X != ssa.Value(phi) {
+			continue
+		}
+		return lt.Y
+	}
+	return nil
+}
+
+// autoRangeInv: -1 <= ri, and ri is -1 or below the length of the ranged value
+func (f *Frame) autoRangeInv(phi *ssa.Phi, ri Sx) Sx {
+	c := f.tr.c
+	inv := c.it.le(I64, c.it.iconst(-1), ri)
+	if b := rangeBound(phi); b != nil {
+		if bv, ok := f.vals[b]; ok && bv.t != "" {
+			inv = and(inv, or(eq(ri, c.it.iconst(-1)), c.it.lt(I64, ri, bv.t)))
+		} else if cv, ok := b.(*ssa.Const); ok {
+			inv = and(inv, or(eq(ri, c.it.iconst(-1)), c.it.lt(I64, ri, f.tr.constVal(cv.Type(), cv.Value).t)))
+		}
+	}
+	return inv
 }
 
 func phiName(phi *ssa.Phi) string {
@@ -792,7 +822,7 @@ func (f *Frame) takeEdge(b *ssa.BasicBlock, succ *ssa.BasicBlock, st *State) {
 			for phi, v := range pv {
 				if phi.Comment == "rangeindex" {
 					c.addObl(&Obligation{Name: fmt.Sprintf("%s#loop%d.auto.keep", tr.oblPrefix, li.ord), Kind: "inv.keep",
-						Guard: st.guard, Goal: c.it.le(I64, c.it.iconst(-1), v.t), Pos: "-1 <= rangeindex", Func: tr.oblPrefix})
+						Guard: st.guard, Goal: f.autoRangeInv(phi, v.t), Pos: "-1 <= rangeindex && (rangeindex == -1 || rangeindex < len)", Func: tr.oblPrefix})
 				}
 			}
 		}
